@@ -520,7 +520,7 @@ def finding_keys(r, failed):
          mem:<kind>:<f1<f2>        memory-class sanitizer report, top two in-tree frames (no tool: one library defect reached
                                    from several tools is one finding; the tools are listed in the finding's text)
          ub:<kind>                 other undefined behaviour (not in the property's list), aggregated per kind; sites in evidence
-         sig:<tool>:<n>:<detail>   fatal signal without a report          hang:<tool>:<invocation>
+         sig:<tool>:<n>:<detail>   fatal signal without a report          hang:<tool>:<invocation>[@ring]  (@ring: on a degenerate journal ring)
          exit:<tool>:<mode>:<code> undocumented exit status"""
     keys = []
     if "NoMemoryError" in failed:
